@@ -18,10 +18,12 @@ from . import units_b_terms as T
 from . import units_b_adapter as A
 
 PID = "C08"
+DEVIATIONS = ["error_sign", "error_not_scaled"]      # named deviations of the spec; switched off when their findings are fixed
 
 CFG = """CONSTANTS
   UInfo <- {uinfo}
   Source = "{source}"
+  FixedDevs = {fixed}
   Emit = TRUE
 SPECIFICATION Spec
 INVARIANT EmitInv
@@ -151,7 +153,7 @@ def run_case(case):
                 return ("fail", dict(clause="product/quotient of uncertain positive values carries at least the first-order uncertainty",
                                      failure="below_first_order", tags=tags, expected=np.asarray(want).tolist(), observed=got.tolist()))
     # conformance with the transcribed formulas (drift only)
-    if len(recs) == 1 and kind == "op" and level == "M":
+    if len(recs) == 1 and r0.get("machknown") and (kind != "op" or level == "M"):
         m = r0["mach"]
         if (m == []) != (oa is None) or (m and not T.close(oa, _f(m), rel=1e-9)):
             return ("drift", f"{op} {r0['a']} {r0['b']} p={r0['p']}: code error {abse}, transcribed formula {m}")
@@ -238,9 +240,10 @@ def run(replay=None):
             print(f"(known finding {k})")
         return 0
     wd = C.workdir(PID)
+    FIXED = C.tla_str(set(A.repaired_deviations(PID, DEVIATIONS)))
     t = C.tier()
     rnd = C.rng(8)
-    r = C.run_tlc(wd, "MagnitudeGen", CFG.format(uinfo="ExactUnits", source="enum", lemmas="INVARIANT Lemmas"))
+    r = C.run_tlc(wd, "MagnitudeGen", CFG.format(uinfo="ExactUnits", source="enum", lemmas="INVARIANT Lemmas", fixed=FIXED))
     if r.violated:
         raise C.MachineryError(f"MagnitudeGen: {r.violated} violated on the rational model:\n{r.cex[:3000]}")
     recs = r.records
@@ -250,7 +253,7 @@ def run(replay=None):
     fin = os.path.join(wd, "magn_in.json")
     with open(fin, "w") as f:
         json.dump(table_scenarios(rnd, nfile), f)
-    r2 = C.run_tlc(wd, "MagnitudeGen", CFG.format(uinfo="FileUnits", source="file", lemmas=""), env={"MAGN_IN": fin})
+    r2 = C.run_tlc(wd, "MagnitudeGen", CFG.format(uinfo="FileUnits", source="file", lemmas="", fixed=FIXED), env={"MAGN_IN": fin})
     if r2.violated or len(r2.records) != nfile:
         raise C.MachineryError(f"MagnitudeGen(file): {r2.violated} records={len(r2.records)}/{nfile}\n{r2.cex[:2000]}")
     cases = cases_from_records(recs) + cases_from_records(r2.records, arrays=False)
